@@ -132,6 +132,17 @@ class CtlPeer(Peer):
                 text = line.decode('ascii')
             except UnicodeDecodeError:
                 text = line.decode('latin-1')
+            # control-spec 2.2: "+" Keyword OptArguments CRLF CmdData - a multi-line command runs to its "." line
+            multi = getattr(self, '_multi', None)
+            if multi is not None:
+                multi.append(text)
+                if text != '.':
+                    continue
+                text = '\r\n'.join(multi)
+                self._multi = None
+            elif text.startswith('+'):
+                self._multi = [text]
+                continue
             self.received.append(text)
             self.inbox.append(text)
             self.sim.log('srv-recv', self.conn.id, text[:120])
